@@ -94,8 +94,19 @@ func init() {
 	registerOp("certm", func(a []string) string { return execs["cert"](a) })
 	registerOp("cert", func(a []string) string {
 		style, steps := "inplace", []string{}
+		// mt=old: files that are prepared and then moved into place (rename / symlink styles) carry a modification time in
+		// the past (cp -p, rsync -t, tar -x, a pair restored from a backup): metadata is no part of what is served
+		oldTimes := false
+		stamp := func(p string) {
+			if oldTimes {
+				t0 := time.Date(2001, 2, 3, 4, 5, 6, 0, time.UTC)
+				os.Chtimes(p, t0, t0)
+			}
+		}
 		for _, t := range a {
-			if strings.HasPrefix(t, "style=") {
+			if t == "mt=old" {
+				oldTimes = true
+			} else if strings.HasPrefix(t, "style=") {
 				style = t[6:]
 			} else if strings.HasPrefix(t, "steps=") {
 				steps = strings.Split(t[6:], ",")
@@ -155,6 +166,7 @@ func init() {
 			case st[0] == 'r':
 				tmp := pth(st[1]) + ".new"
 				os.WriteFile(tmp, ce.pair(num(st[2:]))[idx(st[1])], 0o600)
+				stamp(tmp)
 				os.Rename(tmp, pth(st[1]))
 			case st[0] == 'S' || st[0] == 'M' || st[0] == 's':
 				kc, kk := num(st[1:]), num(st[1:])
@@ -168,6 +180,8 @@ func init() {
 				os.Mkdir(v, 0o700)
 				os.WriteFile(filepath.Join(v, "tls.crt"), ce.pair(kc)[0], 0o600)
 				os.WriteFile(filepath.Join(v, "tls.key"), ce.pair(kk)[1], 0o600)
+				stamp(filepath.Join(v, "tls.crt"))
+				stamp(filepath.Join(v, "tls.key"))
 				old, _ := os.Readlink(filepath.Join(ce.dir, "..data"))
 				os.Symlink(name, filepath.Join(ce.dir, "..data_tmp"))
 				os.Rename(filepath.Join(ce.dir, "..data_tmp"), filepath.Join(ce.dir, "..data"))
@@ -303,12 +317,22 @@ func init() {
 				c.tag("ends-with-missing-file")
 			}
 			c.tag("style:" + style)
-			c.op(fmt.Sprintf("cert style=%s steps=%s", style, strings.Join(steps, ",")))  // oracle: the property
-			c.op(fmt.Sprintf("certm style=%s steps=%s", style, strings.Join(steps, ","))) // correspondence: code + inotify contract
+			mt := ""
+			if style != "inplace" && r.chance(1, 3) {
+				mt = " mt=old"
+				c.tag("installed-files-carry-old-mtimes")
+			}
+			c.op(fmt.Sprintf("cert style=%s steps=%s%s", style, strings.Join(steps, ","), mt))  // oracle: the property
+			c.op(fmt.Sprintf("certm style=%s steps=%s%s", style, strings.Join(steps, ","), mt)) // correspondence: code + inotify contract
 		}
 		for i := 0; i < 1+c.count/10; i++ {
 			c.tag("concurrent-handshakes")
 			c.op(fmt.Sprintf("certrace n=%d", 5+i%4))
+		}
+		for _, st := range []string{"rename steps=rc1,rk1", "rename steps=rk1,rc1", "symlink steps=S1", "symlink steps=S1,S2"} {
+			c.tag("installed-files-carry-old-mtimes")
+			c.op("cert style=" + st + " mt=old")
+			c.op("certm style=" + st + " mt=old")
 		}
 		// the documented finding D17: swap of the symlinked directory WITHOUT deleting the old one
 		c.op("cert style=symlink steps=S1,s2")
